@@ -39,7 +39,7 @@ def run(ctx):
                    'is parameterised by one (entry point -> when::When -> strategy class)', minimum=12)
     for cfg, fb in sorted(fbs.items()):
         ctx.guard(lambda: lib_when.check_policy_forward(ctx, fb, rpf, r'^yaclib::(WhenAll|Join)$', False))
-        ctx.guard(lambda: lib_core.check_move_sites(ctx, fb, rmv, lambda f: 'async/when' in f.file))
+        ctx.guard(lambda: lib_core.check_move_sites(ctx, fb, rmv, lambda f: 'async/when' in f.file or f.file.endswith('detail/shared_core.hpp') or f.file.endswith('detail/unique_core.hpp')))
         ctx.guard(lambda: lib_core.check_loop_caller(ctx, fb, rl, lambda f: f.clsq.startswith('yaclib::when::')))
         fns = lib_accessor.functions_with_accessors(fb, WHEN_FILES)
         if not fns:
